@@ -36,6 +36,10 @@ var poolEncoding = []string{`"`, `a"b`, `'`, `a: b`, `#c`, `a #c`, `\`, `a\nb`, 
 	// texts that look like the escape sequences encoders emit (an encoder that post-processes its output trips over them)
 	`C:\u003cdir`, `\u0026`, `\u003e`, `\u2028`, `\"`, `\\`, `\/`, `\x3c`, `&amp;`, `&lt;b&gt;`, `%3C`, `\U0001F600`, `\t`, `\r\n`, `\0`}
 
+// names whose text spells the path of another node ("a/a" beside a > a): implementations that key nodes by a joined path
+// confuse them
+var poolSlashTiny = []string{"a", "b", "a/a", "a/b", "b/a", "a/a/a", "a", "b", "/a", "a/"}
+
 func sampled(p []string) *rapid.Generator[string] { return rapid.SampledFrom(p) }
 
 // genFreeName draws an arbitrary one-line, non-empty string (valid UTF-8) that can be written as a list item.
@@ -411,4 +415,30 @@ func maybeMixed(t *rapid.T, sp *model.Spelling, nroots int) {
 	if sp.Heading && nroots >= 2 && rapid.IntRange(0, 2).Draw(t, "mixed") == 0 {
 		sp.HeadingFrom = rapid.IntRange(1, nroots-1).Draw(t, "headingFrom")
 	}
+}
+
+// genWideRepeat: one parent with W differently named children (W around 64, 128, 256), after which the name of ONE of them
+// (any position) is written again with a child of its own: the repeated row must merge into the existing sibling.
+func genWideRepeat() *rapid.Generator[model.Forest] {
+	return rapid.Custom(func(t *rapid.T) model.Forest {
+		w := rapid.SampledFrom([]int{31, 32, 33, 63, 64, 65, 66, 70, 127, 128, 129, 130, 256, 257, 300}).Draw(t, "w")
+		r := &model.T{Name: "wide"}
+		for i := 0; i < w; i++ {
+			r.Kids = append(r.Kids, &model.T{Name: "c" + strconv.Itoa(i)})
+		}
+		nrep := rapid.IntRange(1, 3).Draw(t, "nrep")
+		for j := 0; j < nrep; j++ {
+			k := rapid.IntRange(0, w-1).Draw(t, "repeat")
+			if rapid.IntRange(0, 3).Draw(t, "edge") == 0 {
+				k = rapid.SampledFrom([]int{0, w - 1, w / 2, 63, 64, 65}).Draw(t, "edgeAt") % w
+			}
+			r.Kids = append(r.Kids, &model.T{Name: "c" + strconv.Itoa(k), Kids: []*model.T{{Name: "again" + strconv.Itoa(j)}}})
+		}
+		f := model.Forest{r}
+		if rapid.Bool().Draw(t, "below") {
+			// the wide parent one level down
+			f = model.Forest{{Name: "top", Kids: []*model.T{r, {Name: "after"}}}}
+		}
+		return f
+	})
 }
